@@ -368,6 +368,13 @@ func (e *Encoder) applyContract(fr *frame, ct *Contract, args []*SVal, ci ssa.Ca
 		e.cur = pre
 		e.havocAll()
 		e.restoreReceiver(fr, pre, args)
+		for i, p := range callee.Params {
+			if i < len(args) && ct.Options["keeps-request:"+p.Name()] {
+				// stated on the contract: the command's request fields are only read
+				e.trusted["SendCommand(ctx, c) leaves the request fields (c.Req) of the command unchanged (request serialisers only read their receiver)"] = true
+				e.restoreRequest(pre, args[i])
+			}
+		}
 		post = e.cur
 		if e.pure == 0 && e.contract != nil && len(e.contract.Assigns) > 0 && !e.contract.AssignsAny {
 			e.oblige("frame", "call:"+cname, "callee without assigns clause may modify anything", c.False(), ci.Pos())
@@ -726,6 +733,9 @@ func (e *Encoder) frameCheckLoc(fr *frame, w assignLoc, pos token.Pos, what stri
 			conds = append(conds, c.Eq(al.idx, w.idx))
 		}
 	}
+	// ... or the object written was allocated by this invocation (known only semantically, e.g. from
+	// a loop invariant isnew(x))
+	conds = append(conds, c.NewObject(ref, e.A0, 3))
 	goal := c.Or(conds...)
 	if goal.IsTrue() {
 		return
@@ -2169,6 +2179,7 @@ func (e *Encoder) atCall(fr *frame, cm *ssa.CallCommon, ci ssa.CallInstruction, 
 		}
 		env := e.contractEnv(fr, e.contract, nil, e.cur, e.entry)
 		env.callArgs = args
+		env.atInstr = ci
 		if cm.IsInvoke() {
 			env.callArgs = append([]*SVal{e.val(fr, cm.Value)}, args...)
 		}
